@@ -4,7 +4,11 @@
                                    whose first blocks are the dispatch path is not a run of the cut function
    2. cut_sound_prefix_needs_plain a path through a callsub block: the approving executions of the cut function
                                    visit the callee between the two path blocks
-   3. cut_sound_needs_final_branch_free   a conditional branch as last instruction of the program *)
+   3. cut_final_branch_no_artefact a conditional branch as last instruction of the program: since Spec/Exec.jump_ok
+                                   reads "the branch targets the next line" off the jump target (not off the length
+                                   of the program), the err instructions appended to the cut function's program do
+                                   not create a fall-through execution (the former hypothesis final_branch_free of
+                                   the soundness theorems is gone) *)
 From Coq Require Import String List NArith ZArith Bool Arith Lia.
 From Tealer Require Import Tables LeafPrelude Leaves Syntax Parse Cfg StackAst Keys Analysis Domains Detect Group.
 From Tealer Require Import CfgLemmas SolverLemmas SubLemmas GraphWf GroupLemmas.
@@ -136,13 +140,12 @@ Qed.
 (* the naive prefix form of soundness: "every approving execution of the cut function begins with the path" *)
 Theorem cut_sound_prefix_needs_plain :
   exists p t path f' errs e sem cfgs,
-    parse_teal p = Ok t /\ construct_function t path = Ok (f', errs) /\ final_branch_free t /\
+    parse_teal p = Ok t /\ construct_function t path = Ok (f', errs) /\
     sem_ok e sem /\ Accepts e sem f' cfgs /\
     length path <= length cfgs /\ map fst (firstn (length path) cfgs) <> path.
 Proof.
   exists ex_callpath_prog, ex_callpath_t, [0; 1], ex_callpath_f, [], ex_env, (sem_ref ex_env), ex_callpath_run.
   split; [exact ex_callpath_parse|]. split; [exact ex_callpath_cf|].
-  split; [apply (last_not_branch_free _ _ ex_callpath_parse); vm_compute; exact I|].
   split; [apply sem_ref_ok|]. split; [exact ex_callpath_accepts|].
   split; [simpl; lia | simpl; discriminate].
 Qed.
@@ -151,11 +154,11 @@ Print Assumptions cut_sound_prefix_needs_plain.
 (* ================================================================== 3. a conditional branch ends the program *)
 (*   int 1; bnz start / err / T: int 1; return / start: int 1; bz T        (bz T is the last instruction)
      blocks 0 -> {1, 3}, 1 = [err], 2 = [T: ...], 3 = [start: int 1; bz T] -> {2}.
-     In the contract, Spec/Exec.jump_ok lets block 3 reach block 2 only by jumping (not jumping falls off the
-     program); bz pops 1 and does not jump, so 0 3 2 is no execution of the contract.  The cut function for
-     [0; 3] has the err instruction of err block 4 appended to its program, bz T is no longer last, and 0 3 2 is an
-     approving execution of it.  This is an artefact of how Spec/Exec.v treats falling off the program, not of
-     the tool: final_branch_free excludes it. *)
+     Spec/Exec.jump_ok lets block 3 reach block 2 only by jumping (bz T does not target the next line, so not
+     jumping falls off the contract); bz pops 1 and does not jump, so 0 3 2 is no execution of the contract.  The
+     cut function for [0; 3] has the err instruction of err block 4 appended to its program, so bz T is no longer
+     the last instruction of fn_prog -- but 0 3 2 is still no execution of it, and the run 0 3 2 exists in both
+     graphs. *)
 Definition ex_lastbr_prog : prog :=
   [ mkIns 1 (IInt (IANum 1)); mkIns 2 (IBNZ "start"); mkIns 3 IErr; mkIns 4 (ILabel "T"); mkIns 5 (IInt (IANum 1));
     mkIns 6 IReturn; mkIns 7 (ILabel "start"); mkIns 8 (IInt (IANum 1)); mkIns 9 (IBZ "T") ].
@@ -181,17 +184,20 @@ Proof.
   subst a. vm_compute in Hab. inversion Hab; subst. reflexivity.
 Qed.
 
-Lemma ex_lastbr_accepts : Accepts ex_env (sem_ref ex_env) ex_lastbr_f ex_lastbr_run.
+Lemma ex_lastbr_run_f : Run ex_lastbr_f ex_lastbr_run.
 Proof.
-  assert (Hex : Exec ex_env (sem_ref ex_env) ex_lastbr_f ex_lastbr_run).
-  { unfold Exec, ex_lastbr_run.
-    eapply (EF_step _ _ _ _ (3, [])); [vm_compute; reflexivity | bex | edge ex_lastbr_f | brok |].
-    eapply (EF_step _ _ _ _ (2, [])); [vm_compute; reflexivity | bex | edge ex_lastbr_f | vm_compute; intros H; discriminate H |].
-    eapply EF_last; [vm_compute; reflexivity | bex]. }
-  split; [exact Hex|]. split; [|split].
-  - split; [exact (Exec_Run _ _ _ _ Hex)|]. eexists. split; vm_compute; reflexivity.
-  - reflexivity.
-  - eexists. split; vm_compute; reflexivity.
+  unfold Run, ex_lastbr_run.
+  eapply (RF_step _ _ (3, [])); [edge ex_lastbr_f|]. eapply (RF_step _ _ (2, [])); [edge ex_lastbr_f|]. constructor.
+Qed.
+
+Lemma ex_lastbr_not_exec_f : ~ Exec ex_env (sem_ref ex_env) ex_lastbr_f ex_lastbr_run.
+Proof.
+  unfold Exec, ex_lastbr_run. intros H.
+  inversion H as [|c c' rest cs blk tr cs' Hb [Hc Hnf] Hstep Hbr Hrest]; subst.
+  vm_compute in Hb. inversion Hb; subst blk. vm_compute in Hc. inversion Hc; subst tr cs'.
+  inversion Hrest as [|c2 c2' rest2 cs2 blk2 tr2 cs2' Hb2 [Hc2 Hnf2] Hstep2 Hbr2 Hrest2]; subst.
+  vm_compute in Hb2. inversion Hb2; subst blk2. vm_compute in Hc2. inversion Hc2; subst tr2 cs2'.
+  clear Hrest2. vm_compute in Hbr2. specialize (Hbr2 eq_refl). discriminate Hbr2.
 Qed.
 
 Lemma ex_lastbr_not_exec : ~ Exec ex_env (sem_ref ex_env) ex_lastbr_W ex_lastbr_run.
@@ -204,17 +210,17 @@ Proof.
   clear Hrest2. vm_compute in Hbr2. specialize (Hbr2 eq_refl). discriminate Hbr2.
 Qed.
 
-Theorem cut_sound_needs_final_branch_free :
+Theorem cut_final_branch_no_artefact :
   exists p t path f' errs e sem cfgs,
     parse_teal p = Ok t /\ construct_function t path = Ok (f', errs) /\ path_plain t path /\
-    sem_ok e sem /\ Accepts e sem f' cfgs /\ ~ Exec e sem (whole_function t) cfgs.
+    sem_ok e sem /\ Run f' cfgs /\ ~ Exec e sem f' cfgs /\ ~ Exec e sem (whole_function t) cfgs.
 Proof.
   exists ex_lastbr_prog, ex_lastbr_t, [0; 3], ex_lastbr_f, [(4, (1, 0))], ex_env, (sem_ref ex_env), ex_lastbr_run.
   split; [exact ex_lastbr_parse|]. split; [exact ex_lastbr_cf|]. split; [exact ex_lastbr_plain|].
-  split; [apply sem_ref_ok|]. split; [exact ex_lastbr_accepts|].
+  split; [apply sem_ref_ok|]. split; [exact ex_lastbr_run_f|]. split; [exact ex_lastbr_not_exec_f|].
   rewrite ex_lastbr_W_eq. exact ex_lastbr_not_exec.
 Qed.
-Print Assumptions cut_sound_needs_final_branch_free.
+Print Assumptions cut_final_branch_no_artefact.
 
 (* ================================================================== 4. the hypotheses of the prefix forms are satisfiable *)
 (* the same contract and execution as in 1., dispatch path [0; 1]: the execution 0 1 3 1 2 starts with the path
